@@ -221,4 +221,387 @@ theorem readNorm_adj (T : Table) : ∀ (ls : List FLabel) (p : Option Inp) (f : 
       simp only [hnr, Bool.false_eq_true, if_false, Bool.true_and]
       exact readNorm_adj T ls (some i) f' h1
 
+/-! ### a callback's failed check / `p.ignoreST = false` and its deferred `Unlock` -/
+
+open VaxisModel.Lemmas.ParserRunFine
+
+/-- **A callback's check and its `p.ignoreST = false` commute with every statement of every other
+    goroutine that is not inside the mutex** (they read `p.escGen`, write `p.ignoreST` and the
+    callback's own program counter; they leave the mutex as it is). -/
+theorem cb_mid_commutes (T : Table) (f : FSys) (k g : Nat) (pc : CbPc) (l : FLabel)
+    (hk : f.cbs[k]? = some (g, pc)) (hpc : pc = .locked ∨ pc = .stateSet) (hl : l ≠ .cb k)
+    (hm : holdsMain f.mpc = false) : step2 T f (.cb k) l = step2 T f l (.cb k) := by
+  have hlt : k < f.cbs.length := by
+    cases Nat.lt_or_ge k f.cbs.length with
+    | inl h => exact h
+    | inr h => rw [List.getElem?_eq_none_iff.mpr h] at hk; cases hk
+  cases l with
+  | cb j =>
+    have hjk : j ≠ k := fun h => hl (by rw [h])
+    rcases hpc with rfl | rfl
+    all_goals
+      simp only [step2, FSys.run, FSys.step, cbStep, hk]
+      cases hj : f.cbs[j]? with
+      | none => simp [hj, List.getElem?_set_ne hjk.symm]
+      | some c =>
+        obtain ⟨gj, pcj⟩ := c
+        cases pcj <;> by_cases hmx : f.mutex = none <;>
+          simp [hj, hk, hmx, List.getElem?_set_ne (Ne.symm hjk), List.getElem?_set_ne hjk, List.set_comm _ _ hjk]
+  | closeSig =>
+    rcases hpc with rfl | rfl <;> simp [step2, FSys.run, FSys.step, cbStep, hk]
+  | readRet i =>
+    rcases hpc with rfl | rfl <;> by_cases h : f.mpc = .inRead <;> simp [step2, FSys.run, FSys.step, cbStep, hk, h]
+  | expire =>
+    cases ha : f.armed with
+    | none => rcases hpc with rfl | rfl <;> simp [step2, FSys.run, FSys.step, cbStep, hk, ha]
+    | some ga =>
+      have e1 : (f.cbs ++ [(ga, CbPc.started)])[k]? = f.cbs[k]? := List.getElem?_append_left hlt
+      have hset : ∀ x, (f.cbs ++ [(ga, CbPc.started)]).set k x = f.cbs.set k x ++ [(ga, CbPc.started)] := fun x => by
+        rw [List.set_append_left _ _ hlt]
+      rcases hpc with rfl | rfl <;> simp [step2, FSys.run, FSys.step, cbStep, hk, ha, e1, hset]
+  | main =>
+    rcases hpc with rfl | rfl
+    all_goals
+      simp only [step2, FSys.run, FSys.step, cbStep, hk, mainStep]
+      cases hmpc : f.mpc with
+      | fin st v =>
+        cases st <;> by_cases hmx : f.mutex = none <;> simp_all [holdsMain]
+      | _ => by_cases hmx : f.mutex = none <;> by_cases hc : f.closeReq = true <;> simp_all [holdsMain]
+
+/-- Callback `k`'s next statement is one that the harness label `cb k` runs on from, through the
+    deferred `Unlock`: a check that fails, or `p.ignoreST = false`. -/
+def opens (f : FSys) (k : Nat) : Bool :=
+  match f.cbs[k]? with
+  | some (g, .locked) => !decide (g = f.escGen)
+  | some (_, .stateSet) => true
+  | _ => false
+
+def openK (f : FSys) : FLabel → Option Nat
+  | .cb k => if opens f k then some k else none
+  | _ => none
+
+/-- Along the run from `f`: every callback statement that leads to `failed` / `stSet` is immediately
+    followed by the next statement of the same callback (the deferred `Unlock`). -/
+def cbAdj (T : Table) : FSys → List FLabel → Bool
+  | _, [] => true
+  | f, l :: ls =>
+    match FSys.step T f l with
+    | none => true
+    | some (f', _) =>
+      (match openK f l with
+       | some k => decide (ls.head? = some (.cb k))
+       | none => true) && cbAdj T f' ls
+
+def pendc : Option Nat → List FLabel
+  | none => []
+  | some k => [.cb k]
+
+/-- The normalising function: such a statement is carried forward to the callback's next statement. -/
+def cbNorm (T : Table) : Option Nat → FSys → List FLabel → List FLabel
+  | p, _, [] => pendc p
+  | none, f, l :: ls =>
+    match openK f l with
+    | some k => cbNorm T (some k) f ls
+    | none =>
+      match FSys.step T f l with
+      | some (f', _) => l :: cbNorm T none f' ls
+      | none => l :: ls
+  | some k, f, l :: ls =>
+    if l = .cb k then
+      match FSys.run T f [.cb k, .cb k] with
+      | some (f'', _) => .cb k :: .cb k :: cbNorm T none f'' ls
+      | none => .cb k :: .cb k :: ls
+    else
+      match FSys.step T f l with
+      | some (f', _) => l :: cbNorm T (some k) f' ls
+      | none => .cb k :: l :: ls
+
+theorem opens_spec (f : FSys) (k : Nat) (h : opens f k = true) :
+    ∃ g pc, f.cbs[k]? = some (g, pc) ∧ (pc = .locked ∨ pc = .stateSet) ∧ (pc = .locked → g ≠ f.escGen) := by
+  unfold opens at h
+  split at h
+  · rename_i g hk
+    exact ⟨g, .locked, hk, Or.inl rfl, fun _ => by simpa using h⟩
+  · rename_i g hk
+    exact ⟨g, .stateSet, hk, Or.inr rfl, fun h => by cases h⟩
+  · cases h
+
+theorem openK_spec (f : FSys) (l : FLabel) (k : Nat) (h : openK f l = some k) : l = .cb k ∧ opens f k = true := by
+  cases l with
+  | cb j =>
+    simp only [openK] at h
+    split at h
+    · rename_i ho
+      simp only [Option.some.injEq] at h
+      subst h; exact ⟨rfl, ho⟩
+    · cases h
+  | _ => cases h
+
+/-- A statement of another goroutine outside the mutex leaves callback `k` and `p.escGen` alone. -/
+theorem frame_k (T : Table) (f f' : FSys) (l : FLabel) (o : List Seq) (k : Nat)
+    (hs : FSys.step T f l = some (f', o)) (hl : l ≠ .cb k) (hm : holdsMain f.mpc = false)
+    (hlt : k < f.cbs.length) : f'.cbs[k]? = f.cbs[k]? ∧ f'.escGen = f.escGen := by
+  cases l with
+  | closeSig => simp only [FSys.step, Option.some.injEq, Prod.mk.injEq] at hs; rw [← hs.1]; exact ⟨rfl, rfl⟩
+  | readRet i =>
+    simp only [FSys.step] at hs
+    split at hs
+    · simp only [Option.some.injEq, Prod.mk.injEq] at hs; rw [← hs.1]; exact ⟨rfl, rfl⟩
+    · cases hs
+  | expire =>
+    simp only [FSys.step] at hs
+    split at hs
+    · simp only [Option.some.injEq, Prod.mk.injEq] at hs; rw [← hs.1]
+      exact ⟨List.getElem?_append_left hlt, rfl⟩
+    · cases hs
+  | cb j =>
+    have hjk : j ≠ k := fun h => hl (by rw [h])
+    simp only [FSys.step] at hs
+    unfold cbStep at hs
+    split at hs
+    · cases hs
+    · rename_i g pc hi
+      cases pc <;> simp only at hs <;>
+        first
+          | (cases hs; done)
+          | (cases hs; exact ⟨List.getElem?_set_ne hjk, rfl⟩)
+          | (split at hs <;> first | (cases hs; done) | (cases hs; exact ⟨List.getElem?_set_ne hjk, rfl⟩))
+  | main =>
+    simp only [FSys.step] at hs
+    unfold mainStep at hs
+    cases hpc : f.mpc with
+    | fin st v =>
+      rw [hpc] at hs hm
+      cases st <;> simp only at hs <;>
+        first
+          | (cases hm; done)
+          | (cases hs; exact ⟨rfl, rfl⟩)
+          | (split at hs <;> first | (cases hs; done) | (cases hs; exact ⟨rfl, rfl⟩))
+    | _ =>
+      rw [hpc] at hs hm
+      simp only at hs
+      first
+        | (cases hm; done)
+        | (cases hs; done)
+        | (cases hs; exact ⟨rfl, rfl⟩)
+        | (split at hs <;> first | (cases hs; done) | (cases hs; exact ⟨rfl, rfl⟩))
+
+theorem lt_of_getElem? {α} {l : List α} {k : Nat} {x : α} (h : l[k]? = some x) : k < l.length := by
+  cases Nat.lt_or_ge k l.length with
+  | inl h' => exact h'
+  | inr h' => rw [List.getElem?_eq_none_iff.mpr h'] at h; cases h
+
+theorem opens_crit (f : FSys) (hinv : FInv f) (k : Nat) (h : opens f k = true) :
+    holdsMain f.mpc = false ∧ k < f.cbs.length := by
+  obtain ⟨g, pc, hk, hpc, _⟩ := opens_spec f k h
+  exact ⟨(cb_excl f hinv k g pc hk (by rcases hpc with rfl | rfl <;> rfl)).2.1, lt_of_getElem? hk⟩
+
+theorem opens_keep (T : Table) (f f' : FSys) (l : FLabel) (o : List Seq) (k : Nat) (hinv : FInv f)
+    (hs : FSys.step T f l = some (f', o)) (hl : l ≠ .cb k) (h : opens f k = true) : opens f' k = true := by
+  obtain ⟨hm, hlt⟩ := opens_crit f hinv k h
+  obtain ⟨h1, h2⟩ := frame_k T f f' l o k hs hl hm hlt
+  unfold opens at h ⊢
+  rw [h1, h2]; exact h
+
+theorem cb_swap (T : Table) (f : FSys) (hinv : FInv f) (k : Nat) (l : FLabel) (X : List FLabel)
+    (h : opens f k = true) (hl : l ≠ .cb k) :
+    FSys.run T f (.cb k :: l :: X) = FSys.run T f (l :: .cb k :: X) := by
+  obtain ⟨g, pc, hk, hpc, _⟩ := opens_spec f k h
+  have := swap_in_schedule T [] X (.cb k) l f (fun f' o hp => by
+    simp only [FSys.run, Option.some.injEq, Prod.mk.injEq] at hp
+    rw [← hp.1]; exact cb_mid_commutes T f k g pc l hk hpc hl (opens_crit f hinv k h).1)
+  simpa using this
+
+/-- **The normalised schedule runs to the same result** (from a state that meets `FInv`). -/
+theorem cbNorm_run (T : Table) (hT : TimerOk T) : ∀ (ls : List FLabel) (p : Option Nat) (f : FSys), FInv f →
+    (∀ k, p = some k → opens f k = true) → FSys.run T f (cbNorm T p f ls) = FSys.run T f (pendc p ++ ls)
+  | [], p, f, _, _ => by simp [cbNorm]
+  | l :: ls, none, f, hinv, _ => by
+    simp only [cbNorm, pendc, List.nil_append]
+    cases ho : openK f l with
+    | some k =>
+      obtain ⟨rfl, hop⟩ := openK_spec f l k ho
+      simp only
+      rw [cbNorm_run T hT ls (some k) f hinv (fun k' hk' => by cases hk'; exact hop)]; rfl
+    | none =>
+      simp only
+      cases hs : FSys.step T f l with
+      | none => rfl
+      | some r =>
+        obtain ⟨f', o⟩ := r
+        simp only
+        rw [run_cons_some T f f' l o _ hs, run_cons_some T f f' l o _ hs,
+          cbNorm_run T hT ls none f' (step_inv T hT f f' l o hinv hs) (fun _ h => by cases h)]; rfl
+  | l :: ls, some k, f, hinv, hop => by
+    have hop := hop k rfl
+    simp only [cbNorm, pendc, List.singleton_append]
+    by_cases hl : l = .cb k
+    · subst hl
+      rw [if_pos rfl]
+      have e : ∀ X, FSys.run T f (.cb k :: .cb k :: X) = FSys.run T f ([.cb k, .cb k] ++ X) := fun _ => rfl
+      cases h2 : FSys.run T f [.cb k, .cb k] with
+      | none => rfl
+      | some r =>
+        obtain ⟨f'', o⟩ := r
+        simp only
+        rw [e, e, VaxisModel.Props.C08Sched.run_append, VaxisModel.Props.C08Sched.run_append, h2]
+        simp only [cbNorm_run T hT ls none f'' (run_inv T hT _ f f'' o hinv h2) (fun _ h => by cases h), pendc,
+          List.nil_append]
+    · rw [if_neg hl]
+      cases hs : FSys.step T f l with
+      | none => rfl
+      | some r =>
+        obtain ⟨f', o⟩ := r
+        simp only
+        rw [cb_swap T f hinv k l ls hop hl, run_cons_some T f f' l o _ hs, run_cons_some T f f' l o _ hs,
+          cbNorm_run T hT ls (some k) f' (step_inv T hT f f' l o hinv hs)
+            (fun k' hk' => by cases hk'; exact opens_keep T f f' l o k hinv hs hl hop)]; rfl
+
+/-- The normalised schedule is a permutation of the original. -/
+theorem cbNorm_perm (T : Table) : ∀ (ls : List FLabel) (p : Option Nat) (f : FSys),
+    (cbNorm T p f ls).Perm (pendc p ++ ls)
+  | [], p, f => by simp [cbNorm]
+  | l :: ls, none, f => by
+    simp only [cbNorm, pendc, List.nil_append]
+    cases ho : openK f l with
+    | some k =>
+      obtain ⟨rfl, _⟩ := openK_spec f l k ho
+      exact cbNorm_perm T ls (some k) f
+    | none =>
+      simp only
+      cases hs : FSys.step T f l with
+      | none => exact List.Perm.refl _
+      | some r => exact (cbNorm_perm T ls none r.1).cons _
+  | l :: ls, some k, f => by
+    simp only [cbNorm, pendc, List.singleton_append]
+    by_cases hl : l = .cb k
+    · subst hl
+      rw [if_pos rfl]
+      cases h2 : FSys.run T f [.cb k, .cb k] with
+      | none => exact List.Perm.refl _
+      | some r => exact ((cbNorm_perm T ls none r.1).cons _).cons _
+    · rw [if_neg hl]
+      cases hs : FSys.step T f l with
+      | none => exact List.Perm.refl _
+      | some r => exact ((cbNorm_perm T ls (some k) r.1).cons _).trans (List.Perm.swap _ _ _)
+
+/-- The schedule runs and ends in a state that meets `P`. -/
+def EndP (P : FSys → Prop) (T : Table) (f : FSys) (ls : List FLabel) : Prop :=
+  ∃ r, FSys.run T f ls = some r ∧ P r.1
+
+theorem EndP_cons (P : FSys → Prop) (T : Table) (f : FSys) (l : FLabel) (ls : List FLabel)
+    (h : EndP P T f (l :: ls)) : ∃ f' o, FSys.step T f l = some (f', o) ∧ EndP P T f' ls := by
+  obtain ⟨r, hr, hm⟩ := h
+  cases hs : FSys.step T f l with
+  | none => simp [FSys.run, hs] at hr
+  | some x =>
+    obtain ⟨f', o⟩ := x
+    rw [run_cons_some T f f' l o ls hs] at hr
+    cases h2 : FSys.run T f' ls with
+    | none => rw [h2] at hr; cases hr
+    | some r2 =>
+      rw [h2] at hr
+      simp only [Option.map_some, Option.some.injEq] at hr
+      refine ⟨f', o, ?_, r2, ?_, by rw [← hr] at hm; exact hm⟩ <;> first | rfl | assumption
+
+/-- No callback goroutine stands between its failed check / `p.ignoreST = false` and its `Unlock`. -/
+def noHalf (f : FSys) : Prop := ∀ c ∈ f.cbs, c.2 ≠ .failed ∧ c.2 ≠ .stSet
+
+theorem open_step (T : Table) (f f' : FSys) (k : Nat) (o : List Seq) (h : opens f k = true)
+    (hs : FSys.step T f (.cb k) = some (f', o)) :
+    ∃ g pc', f'.cbs[k]? = some (g, pc') ∧ (pc' = .failed ∨ pc' = .stSet) := by
+  obtain ⟨g, pc, hk, hpc, hg⟩ := opens_spec f k h
+  have hlt := lt_of_getElem? hk
+  simp only [FSys.step, cbStep, hk] at hs
+  rcases hpc with rfl | rfl
+  · simp only [if_neg (hg rfl), Option.some.injEq, Prod.mk.injEq] at hs
+    rw [← hs.1]
+    exact ⟨g, .failed, by simp [List.getElem?_set_self hlt], Or.inl rfl⟩
+  · simp only [Option.some.injEq, Prod.mk.injEq] at hs
+    rw [← hs.1]
+    exact ⟨g, .stSet, by simp [List.getElem?_set_self hlt], Or.inr rfl⟩
+
+theorem not_opens_half (f : FSys) (k g : Nat) (pc : CbPc) (hk : f.cbs[k]? = some (g, pc))
+    (hpc : pc = .failed ∨ pc = .stSet) : opens f k = false := by
+  unfold opens
+  rw [hk]
+  rcases hpc with rfl | rfl <;> rfl
+
+/-- Two callbacks are never both inside the mutex. -/
+theorem other_not_opens (f : FSys) (hinv : FInv f) (k j : Nat) (hk : opens f k = true) (hjk : j ≠ k) :
+    opens f j = false := by
+  cases hj : opens f j with
+  | false => rfl
+  | true =>
+    exfalso
+    obtain ⟨g, pc, hgk, hpc, _⟩ := opens_spec f k hk
+    obtain ⟨g', pc', hgj, hpc', _⟩ := opens_spec f j hj
+    have hck : crit pc = true := by rcases hpc with rfl | rfl <;> rfl
+    have hcj : crit pc' = true := by rcases hpc' with rfl | rfl <;> rfl
+    have h1 := (cb_excl f hinv k g pc hgk hck).2.2
+    have s4 := nCrit_set f.cbs k g pc .gone hgk
+    rw [hck, show crit CbPc.gone = false from rfl] at s4
+    simp only [Bool.toNat_true, Bool.toNat_false] at s4
+    have h0 : nCrit (f.cbs.set k (g, .gone)) = 0 := by omega
+    have hj' : (f.cbs.set k (g, .gone))[j]? = some (g', pc') := by
+      rw [List.getElem?_set_ne (fun h => hjk h.symm)]; exact hgj
+    have := nCrit_zero h0 _ (List.mem_of_getElem? hj')
+    rw [hcj] at this; cases this
+
+/-- **In the normalised schedule every failed check / `p.ignoreST = false` is directly followed by the
+    callback's `Unlock`** — for a schedule that runs and does not end in between. -/
+theorem cbNorm_adj (T : Table) (hT : TimerOk T) : ∀ (ls : List FLabel) (p : Option Nat) (f : FSys), FInv f →
+    (∀ k, p = some k → opens f k = true) → EndP noHalf T f (pendc p ++ ls) → cbAdj T f (cbNorm T p f ls) = true
+  | [], none, _, _, _, _ => rfl
+  | [], some k, f, _, hop, h => by
+    exfalso
+    obtain ⟨f', o, hs, r, hr, hm⟩ := EndP_cons noHalf T f (.cb k) [] h
+    simp only [FSys.run, Option.some.injEq] at hr
+    obtain ⟨g, pc', hk', hpc'⟩ := open_step T f f' k o (hop k rfl) hs
+    have := hm (g, pc') (by rw [← hr]; exact List.mem_of_getElem? hk')
+    rcases hpc' with rfl | rfl
+    · exact this.1 rfl
+    · exact this.2 rfl
+  | l :: ls, none, f, hinv, _, h => by
+    simp only [pendc, List.nil_append] at h
+    simp only [cbNorm]
+    cases ho : openK f l with
+    | some k =>
+      obtain ⟨rfl, hop⟩ := openK_spec f l k ho
+      exact cbNorm_adj T hT ls (some k) f hinv (fun k' hk' => by cases hk'; exact hop) h
+    | none =>
+      obtain ⟨f', o, hs, h'⟩ := EndP_cons noHalf T f l ls h
+      simp only [hs, cbAdj, ho, Bool.true_and]
+      exact cbNorm_adj T hT ls none f' (step_inv T hT f f' l o hinv hs) (fun _ h => by cases h) h'
+  | l :: ls, some k, f, hinv, hop, h => by
+    have hop := hop k rfl
+    simp only [pendc, List.singleton_append] at h
+    simp only [cbNorm]
+    by_cases hl : l = .cb k
+    · subst hl
+      rw [if_pos rfl]
+      obtain ⟨f1, o1, hs1, h1⟩ := EndP_cons noHalf T f _ _ h
+      obtain ⟨f2, o2, hs2, h2⟩ := EndP_cons noHalf T f1 _ _ h1
+      have hrun : FSys.run T f [.cb k, .cb k] = some (f2, o1 ++ (o2 ++ [])) := by
+        simp only [FSys.run, hs1, hs2]
+      obtain ⟨g, pc', hk', hpc'⟩ := open_step T f f1 k o1 hop hs1
+      have hno : openK f1 (.cb k) = none := by simp [openK, not_opens_half f1 k g pc' hk' hpc']
+      have hyes : openK f (.cb k) = some k := by simp [openK, hop]
+      simp only [hrun, cbAdj, hs1, hs2, hyes, hno, List.head?_cons, decide_true, Bool.true_and]
+      exact cbNorm_adj T hT ls none f2 (run_inv T hT _ f f2 _ hinv hrun) (fun _ h => by cases h) h2
+    · rw [if_neg hl]
+      have h' : EndP noHalf T f (l :: .cb k :: ls) := by
+        obtain ⟨r, hr, hm⟩ := h
+        exact ⟨r, by rw [← cb_swap T f hinv k l ls hop hl]; exact hr, hm⟩
+      obtain ⟨f', o, hs, h1⟩ := EndP_cons noHalf T f l _ h'
+      have hno : openK f l = none := by
+        cases l with
+        | cb j =>
+          have hjk : j ≠ k := fun h => hl (by rw [h])
+          simp [openK, other_not_opens f hinv k j hop hjk]
+        | _ => rfl
+      simp only [hs, cbAdj, hno, Bool.true_and]
+      exact cbNorm_adj T hT ls (some k) f' (step_inv T hT f f' l o hinv hs)
+        (fun k' hk' => by cases hk'; exact opens_keep T f f' l o k hinv hs hl hop) h1
+
 end VaxisModel.Lemmas.ParserRunSchedGroup
